@@ -576,6 +576,41 @@ impl<'a, W: Write> ElementWriter<'a, W> {
         Ok(self.writer)
     }
 }
+/// Verification hooks (off in every normal build): build a writer whose
+/// indentation tracker is in a given state and look at that state.
+#[cfg(any(kani, quick_xml_verif))]
+impl<W> Writer<W> {
+    /// `indents_len`: length of the pre-filled indent buffer (128 in `Indentation::new`)
+    #[doc(hidden)]
+    pub fn verif_with_indent_state(
+        inner: W,
+        indent_char: u8,
+        indent_size: usize,
+        should_line_break: bool,
+        current_indent_len: usize,
+        indents_len: usize,
+    ) -> Writer<W> {
+        Writer {
+            writer: inner,
+            indent: Some(Indentation {
+                should_line_break,
+                indent_char,
+                indent_size,
+                indents: vec![indent_char; indents_len],
+                current_indent_len,
+            }),
+        }
+    }
+
+    /// `(should_line_break, current_indent_len, indents.len())`
+    #[doc(hidden)]
+    pub fn verif_indent_state(&self) -> Option<(bool, usize, usize)> {
+        self.indent
+            .as_ref()
+            .map(|i| (i.should_line_break, i.current_indent_len, i.indents.len()))
+    }
+}
+
 #[cfg(feature = "serialize")]
 pub(crate) struct ToFmtWrite<T>(pub T);
 
